@@ -63,6 +63,10 @@ def strip_lang_subdomain_from_hostname(hostname):
 def lowercase_url(url):
     # NOTE: an escaped letter is a letter too ("%49ndex.html" is "Index.html"), and
     # must be lowercased before normalize_url decides anything on it
+    # NOTE: control characters are dropped anyway, and one of them could hide
+    # an escape ("%4\x019" is "I" too)
+    url = CONTROL_CHARS_RE.sub("", url)
+
     return unquote(url.lower(), unsafe=EVERYTHING_BUT_LETTERS).lower()
 
 
